@@ -323,7 +323,9 @@ Definition wf (k : nat) (d : list row) : bool := shaped k d && valid k d && ends
 (* ------------------------------------------------------------------------------------------------------------ *)
 (* values = data.loc[joint_mask, value_columns].values ; result.loc[sub_table.index, value_columns] = values
    numpy assignment of a (rows x m) block to (n x m) cells: broadcast when rows = 1, positional when rows = n,
-   ValueError otherwise (in particular when no data row has the key) *)
+   ValueError otherwise (in particular when no data row has the key).  The positional branch (several data rows with
+   one key tuple: malformed data, excluded from the theorems by [nodup_keys]) is modelled for sub-tables with distinct
+   labels only; the broadcast branch is label-multiplicity independent. *)
 Definition cat_group (rows : list row) (sub : list (Z * simulant)) : result frame :=
   match rows with
   | [r] => Ok (map (fun s => (fst s, Some (rvals r))) sub)
